@@ -247,7 +247,7 @@ def resolve_unwindset(scratch, h):
         # key = "<fn substring>.<loop number>" or "<fn substring>" (all loops of that fn)
         m = re.match(r"^(.*?)(?:\.(\d+))?$", key)
         fn, num = m.group(1), m.group(2)
-        matched = [i for i in ids if fn in i and (num is None or i.endswith("." + num))]
+        matched = [i for i in ids if all(part in i for part in fn.split("&")) and (num is None or i.endswith("." + num))]
         for i in matched:
             pairs.append(f"{i}:{n}")
     return ",".join(sorted(set(pairs))) if pairs else None
